@@ -85,8 +85,11 @@ def readOpcode (w : Bytes) : Option Nat :=
     | [120, a, b] => if isHexDigit a && isHexDigit b then some (hexNibble a * 16 + hexNibble b) else none
     | _ => none
 
-/-- split the inside of a bracket into words: separators are blanks; a `[` starts a nested word that
-    extends to its matching `]`; `#` starts a comment running to the end of the line -/
+/-- split the inside of a bracket into words: a word is a maximal run of non-separator characters at bracket
+    depth 0, where a `[` (at the start of a word or inside one) opens a group that belongs to the word up to its
+    matching `]` whatever it contains; separators are blanks; `#` at depth 0 starts a comment running to the end of
+    the line; brackets must balance (`none` otherwise: unclosed `[`, or `]` at depth 0).
+    State: `cur` the word in progress, `depth` the bracket depth inside it. -/
 def splitWords : Nat → Bytes → Bytes → Nat → List Bytes → Option (List Bytes)
   | 0, _, _, _, _ => none
   | _ + 1, [], cur, depth, acc =>
@@ -94,11 +97,9 @@ def splitWords : Nat → Bytes → Bytes → Nat → List Bytes → Option (List
   | k + 1, c :: rest, cur, depth, acc =>
     let n := c.toNat
     if depth > 0 then
-      let depth' := if n == 91 then depth + 1 else if n == 93 then depth - 1 else depth
-      if depth' == 0 then splitWords k rest [] 0 ((cur ++ [c]) :: acc)
-      else splitWords k rest (cur ++ [c]) depth' acc
-    else if n == 91 then
-      splitWords k rest [c] 1 (if cur.isEmpty then acc else cur :: acc)
+      splitWords k rest (cur ++ [c]) (if n == 91 then depth + 1 else if n == 93 then depth - 1 else depth) acc
+    else if n == 91 then splitWords k rest (cur ++ [c]) 1 acc
+    else if n == 93 then none
     else if n == 32 || n == 9 || n == 10 || n == 13 then
       splitWords k rest [] 0 (if cur.isEmpty then acc else cur :: acc)
     else if n == 35 then
